@@ -1,4 +1,4 @@
-import GoCrypt.Props.C02
+import GoCrypt.Props.C02Core
 import GoCrypt.Props.C10
 import GoCrypt.Props.C14
 import GoCrypt.Props.Accept
